@@ -158,6 +158,28 @@ class SymNP(types.ModuleType):
             return np.frompyfunc(lambda v: isinstance(v, Sym) or bool(np.isfinite(v)), 1, 1)(a).astype(bool)
         return np.isfinite(a)
 
+    def argsort(self, a, axis=-1, kind=None, *k, **kw):
+        """np.argsort; with the default (or another unstable) kind the order among EQUAL keys is unspecified by numpy's
+        documentation (introsort happens to be stable only for short arrays), so for concrete numeric keys with ties the
+        stand-in returns a permutation that is allowed by the contract and differs from the stable one: every run of equal
+        keys reversed.  Code that relies on tie order under the default kind is thereby exposed at small sizes; the replay
+        on the real library (with a long enough list) decides whether it is a violation."""
+        try:
+            arr = np.asarray(a)
+            if kind in (None, "quicksort", "heapsort") and arr.ndim == 1 and arr.dtype.kind in "fiu" and arr.size > 1 and not k and not kw:
+                idx = np.argsort(arr, kind="stable")
+                out, i = [], 0
+                while i < len(idx):
+                    j = i
+                    while j + 1 < len(idx) and arr[idx[j + 1]] == arr[idx[i]]:
+                        j += 1
+                    out.extend(reversed(idx[i:j + 1].tolist()))
+                    i = j + 1
+                return np.array(out, dtype=idx.dtype)
+        except (TypeError, ValueError):
+            pass
+        return np.argsort(a, axis, kind, *k, **kw)
+
     def where(self, c, *ab):
         if not ab:
             return np.where(np.asarray(c).astype(bool) if _is_symobj(np.asarray(c)) else c)
@@ -269,14 +291,30 @@ class SymNP(types.ModuleType):
             raise Unsupported("np.round on symbolic values")
         return np.round(a, *k, **kw)
 
+    def _isclose_sym(self, a, b, rtol=1e-5, atol=1e-8, equal_nan=False):
+        """numpy's documented definition |a - b| <= atol + rtol * |b| over the reals, element by element (a condition the solver forks on)"""
+        def one(x, y):
+            if is_nan(x) or is_nan(y):
+                return bool(equal_nan and is_nan(x) and is_nan(y))
+            if not isinstance(x, (Sym, SymBool)) and not isinstance(y, (Sym, SymBool)):
+                return bool(np.isclose(float(x), float(y), rtol=rtol, atol=atol))
+            x, y = Sym(Sym.lift(x)), Sym(Sym.lift(y))
+            return abs(x - y) <= Sym(qval(atol)) + Sym(qval(rtol)) * abs(y)
+        if any(isinstance(v, CSym) for v in list(np.asarray(a, dtype=object).flat) + list(np.asarray(b, dtype=object).flat)):
+            raise Unsupported("np.isclose on symbolic complex values")
+        return np.frompyfunc(one, 2, 1)(np.asarray(a, dtype=object), np.asarray(b, dtype=object))
+
     def allclose(self, a, b, *k, **kw):
         if _has_sym(a) or _has_sym(b):
-            raise Unsupported("np.allclose on symbolic values")
+            out = True
+            for c in np.atleast_1d(np.asarray(self._isclose_sym(a, b, *k, **kw), dtype=object)).flat:
+                out = c & out if isinstance(c, SymBool) else (out if c else False)
+            return out
         return np.allclose(np.asarray(a, dtype=float), np.asarray(b, dtype=float), *k, **kw)
 
     def isclose(self, a, b, *k, **kw):
         if _has_sym(a) or _has_sym(b):
-            raise Unsupported("np.isclose on symbolic values")
+            return self._isclose_sym(a, b, *k, **kw)
         return np.isclose(np.asarray(a, dtype=float), np.asarray(b, dtype=float), *k, **kw)
 
     def finfo(self, dtype):
